@@ -20,8 +20,8 @@
 //! usage: c14 run <seed> <quick|thorough>
 //!        c14 replay <json>     ({"seed":…, "index":…} or {"files":[[module, source]…]})
 
-use roto::verif_hooks::c14::{Dump, LirItem, NodeKind, take_dump, take_lir, typecheck_only};
-use roto::{Context, FileSpec, FileTree, RotoString, Runtime, SourceFile, Verdict, library};
+use roto::verif_hooks::c14::{Dump, LirItem, NodeKind, take_const_layouts, take_dump, take_lir, typecheck_only};
+use roto::{Context, FileSpec, FileTree, RotoString, Runtime, SourceFile, Val, Verdict, library};
 use rotov_harness::driver::Driver;
 use rotov_harness::{Prng, Report};
 use serde_json::{Value, json};
@@ -45,6 +45,10 @@ fn the_ctx() -> C14Ctx {
     C14Ctx { cx: CX, cs: CX.to_string().as_str().into() }
 }
 
+/// a registered type of size zero
+#[derive(Clone, Copy, Debug, PartialEq)]
+struct Zt;
+
 type Rt = Runtime<roto::Ctx<C14Ctx>>;
 
 fn runtime() -> Rt {
@@ -66,11 +70,43 @@ fn runtime() -> Rt {
         fn opt(x: u64) -> Option<u64> {
             Some(x)
         }
+        /// logs the id, returns nothing (an effect whose result has no size)
+        fn emitu(id: u64) {
+            LOG.lock().unwrap().push(id);
+        }
+        /// a registered type without any data
+        #[copy] type Zt = Val<Zt>;
+        /// logs the id, returns the one value of the zero-sized registered type
+        fn mkz(id: u64) -> Val<Zt> {
+            LOG.lock().unwrap().push(id);
+            Val(Zt)
+        }
+        /// the one value of the zero-sized registered type (no log)
+        fn zt() -> Val<Zt> {
+            Val(Zt)
+        }
+        /// a zero-sized value in argument position
+        fn zid(z: Val<Zt>) -> u64 {
+            let _ = z;
+            0
+        }
     };
     Runtime::from_lib(lib)
         .unwrap()
         .with_context_type::<C14Ctx>()
         .unwrap()
+}
+
+/// at most three violations per key and worker process: the report keeps the first 200 only,
+/// and a defect that hits many cases should not crowd out the keys of the other families
+fn viol(rep: &mut Report, what: &str, key: &str, input: Value) {
+    static SEEN: Mutex<BTreeMap<String, usize>> = Mutex::new(BTreeMap::new());
+    let mut seen = SEEN.lock().unwrap();
+    let n = seen.entry(key.to_string()).or_default();
+    *n += 1;
+    if *n <= 3 {
+        rep.violation(what, key, input);
+    }
 }
 
 // ---------------------------------------------------------------- the case
@@ -137,14 +173,48 @@ struct Item {
     /// bit 1 = at the start of pkg (else at its end), bit 2 = a `test t_K<n>` item reads the constant too,
     /// bit 3 = accessor and test item live in the constant's own module (else in pkg)
     acc: u8,
+    /// constants: where the effect `emit(n)` of the initialiser sits (index into `INIT_NAMES`)
+    init: u8,
     refs: Vec<Ref>,
 }
 
-/// types of constants: the initialiser computes a `u64` and wraps it
-const TY_NAMES: [&str; 6] = ["u64", "String", "String?", "record", "enum", "List[String]"];
+/// types of constants: the initialiser computes a `u64` and wraps it; from `ZST` on the
+/// value carries nothing of it: `()`, a record without fields, a record of `()`, a registered
+/// type without data are laid out in zero bytes (measured: histogram `const-layout`), `()?` is
+/// an `Option` of a zero-sized payload
+const TY_NAMES: [&str; 11] = ["u64", "String", "String?", "record", "enum", "List[String]", "()", "empty-record", "record-of-unit", "()?", "Zt"];
+/// first type whose values carry no number
+const ZST: u8 = 6;
+/// types the generator takes to be laid out in zero bytes (the hook's layout sizes must agree)
+fn zero_sized(ty: u8) -> bool {
+    matches!(ty, 6 | 7 | 8 | 10)
+}
+/// types whose name depends on the module they are declared in
+fn module_type(ty: u8) -> bool {
+    matches!(ty, 3 | 4 | 7 | 8)
+}
+
+/// Where the one observable effect of a constant's initialiser — the host call logging `n` —
+/// sits: a term of the sum the initialiser computes (the historical shape); the value of the
+/// initialiser is the host call itself (`emitu(n)`, `mkz(n)`, `U { u: emitu(n) }`, `emit(n)`);
+/// a statement of a block whose value is written after it (`{ emitu(n); … () }`); a script
+/// function the initialiser calls (`ini_K<n>()`, whose body is the host call); a block with the
+/// effect whose value is a read of another constant of the same type (the first reference,
+/// when it is one; otherwise rendered as `block`).
+const INIT_NAMES: [&str; 5] = ["sum-term", "direct-host-call", "block", "via-script-function", "via-constant"];
+
+/// the constant whose value an initialiser of shape `via-constant` hands on
+fn via_const(items: &[Item], it: &Item) -> Option<usize> {
+    if !it.is_const || it.init != 4 {
+        return None;
+    }
+    let r = it.refs.first()?;
+    let t = &items[r.to];
+    (t.is_const && t.ty == it.ty && (!module_type(t.ty) || t.module == it.module)).then_some(r.to)
+}
 
 /// read forms per type: (name, template with `$P` for the path), all of type `u64`
-const READ_FORMS: [&[(&str, &str)]; 6] = [
+const READ_FORMS: [&[(&str, &str)]; 11] = [
     &[("bare", "$P"), ("argument", "idu($P)")],
     &[
         ("argument", "num($P)"),
@@ -176,6 +246,15 @@ const READ_FORMS: [&[(&str, &str)]; 6] = [
         ("get-match", "(match $P.get(0) { Some(s) => num(s), None => 0, })"),
         ("copy-get", "{ let c = $P; (match c.get(0) { Some(s) => num(s), None => 0, }) }"),
     ],
+    // values without a number: every read is worth 0
+    &[("statement", "{ $P; 0 }"), ("copy", "{ let c = $P; c; 0 }"), ("eq", "(if $P == $P { 0 } else { 1 })")],
+    &[("copy", "{ let c = $P; 0 }"), ("statement", "{ $P; 0 }"), ("eq", "(if $P == $P { 0 } else { 1 })")],
+    &[("field", "{ $P.u; 0 }"), ("copy-field", "{ let c = $P; c.u; 0 }"), ("eq", "(if $P == $P { 0 } else { 1 })")],
+    &[
+        ("match", "(match $P { Some(u) => 0, None => 1, })"),
+        ("copy-match", "{ let c = $P; (match c { Some(u) => 0, None => 1, }) }"),
+    ],
+    &[("argument", "zid($P)"), ("copy", "{ let c = $P; zid(c) }"), ("eq", "(if $P == $P { 0 } else { 1 })")],
 ];
 
 /// use-site forms of a context variable: (name, variable, expression of value `CX`)
@@ -303,7 +382,7 @@ fn gen_ref(p: &mut Prng, to: usize, same_module: bool) -> Ref {
 }
 
 fn plain_item(is_const: bool, n: usize, module: usize) -> Item {
-    Item { is_const, n, module, uses_ctx: false, ctx_form: 0, ty: 0, alias: None, local: 0, acc: (n as u8 + module as u8) % 8, refs: vec![] }
+    Item { is_const, n, module, uses_ctx: false, ctx_form: 0, ty: 0, alias: None, local: 0, acc: (n as u8 + module as u8) % 8, init: 0, refs: vec![] }
 }
 
 fn plain_ref(to: usize) -> Ref {
@@ -316,7 +395,93 @@ fn plain_ref(to: usize) -> Ref {
 /// compound value in a function a constant needs.
 fn boundary_count() -> u64 {
     let forms: usize = READ_FORMS.iter().map(|f| f.len()).sum();
-    (CTX_FORMS.len() * 5 + forms * 3 + (LOCAL_NAMES.len() - 1) * 2 + multi_family() + scc_family(false)) as u64
+    (CTX_FORMS.len() * 5 + forms * 3 + (LOCAL_NAMES.len() - 1) * 2 + multi_family() + scc_family(false) + init_family() + lead_family()) as u64
+}
+
+/// Constants of every layout class × where the effect of the initialiser sits × who depends
+/// on whom: five types whose values carry no data (four of them laid out in zero bytes) and
+/// two sized ones; the effect as the value itself / a statement of a block / in a script
+/// function / in a block that hands on another constant; the constant alone, read by another
+/// constant, reading another constant, read through a function a constant calls.
+const INIT_TYPES: [u8; 7] = [6, 7, 8, 9, 10, 0, 1];
+
+fn init_family() -> usize {
+    INIT_TYPES.len() * 4 * 4
+}
+
+fn init_graph(g: usize) -> (Vec<Item>, Expect) {
+    let place = g % 4;
+    let init = 1 + ((g / 4) % 4) as u8;
+    let ty = INIT_TYPES[g / 16];
+    let m = |k: usize| (g / 4 + k) % 4;
+    // `typed`: the constant the case is about
+    let (mut items, typed) = match place {
+        0 => (vec![plain_item(true, 0, m(0))], 0),
+        // K0 → K1: read by another constant
+        1 => (vec![plain_item(true, 0, m(0)), plain_item(true, 1, m(1))], 1),
+        // K0 → K1: reads another constant
+        2 => (vec![plain_item(true, 0, m(0)), plain_item(true, 1, m(1))], 0),
+        // K0 → f1 → K2: read through a function a constant calls
+        _ => (vec![plain_item(true, 0, m(0)), plain_item(false, 1, m(1)), plain_item(true, 2, m(2))], 2),
+    };
+    let n = items.len();
+    for i in 0..n - 1 {
+        items[i].refs.push(plain_ref(i + 1));
+        items[i].refs[0].form = (g / 2) as u8;
+    }
+    items[typed].ty = ty;
+    items[typed].init = init;
+    if place == 2 {
+        // the other way round as well: the dependency has the effect in a block
+        items[1].init = 2;
+    }
+    if init == 4 {
+        // the constant whose value is handed on: same type (same module, where the type is
+        // declared per module), its own effect in a script function / in a block
+        let mut dep = plain_item(true, n, items[typed].module);
+        dep.ty = ty;
+        dep.init = if g % 2 == 0 { 3 } else { 2 };
+        let mut r = plain_ref(n);
+        r.form = (g / 2) as u8;
+        items[typed].refs.insert(0, r);
+        items.push(dep);
+    }
+    (items, Expect::Accept)
+}
+
+/// A ring of two mutually recursive functions one of which reads the context, reached by the
+/// constant only through a lead — another constant, or a function outside the ring — that
+/// calls the member that does not read: every assignment of the name numbers to the four
+/// roles × two module patterns.
+fn lead_family() -> usize {
+    2 * factorial(4) * 2
+}
+
+fn lead_graph(g: usize) -> (Vec<Item>, Expect) {
+    let lead_is_const = g % 2 == 0;
+    let modpat = (g / 2) % 2;
+    let perm = nth_perm(4, g / 4);
+    let (mk, mf) = if modpat == 0 { (2, 0) } else { (0, 0) };
+    // K → lead → other ⇄ reader
+    let mut items = vec![
+        plain_item(true, perm[0], mk),
+        plain_item(lead_is_const, perm[1], if lead_is_const { mk } else { mf }),
+        plain_item(false, perm[2], mf),
+        plain_item(false, perm[3], mf),
+    ];
+    items[0].acc |= 8;
+    items[1].acc |= 8;
+    items[0].refs.push(plain_ref(1));
+    items[1].refs.push(plain_ref(2));
+    let mut a = plain_ref(3);
+    a.guarded = true;
+    items[2].refs.push(a);
+    let mut b = plain_ref(2);
+    b.guarded = true;
+    items[3].refs.push(b);
+    items[3].uses_ctx = true;
+    items[3].ctx_form = (g % CTX_FORMS.len()) as u8;
+    (items, Expect::Context(if lead_is_const { "via-constant-then-function-cycle" } else { "via-function-then-function-cycle" }))
 }
 
 /// several read sites of one constant on different paths: shape × type of the constant × where the body runs
@@ -505,8 +670,18 @@ fn boundary_graph(g: u64) -> (Vec<Item>, Expect) {
         if g < multi_family() {
             return multi_graph(g);
         }
+        g -= multi_family();
         // --- context reads inside / behind a cycle of mutually recursive functions
-        return scc_graph(g - multi_family(), false);
+        if g < scc_family(false) {
+            return scc_graph(g, false);
+        }
+        g -= scc_family(false);
+        // --- layout classes of constants × where the effect of the initialiser sits
+        if g < init_family() {
+            return init_graph(g);
+        }
+        // --- a ring with a context read behind a lead
+        return lead_graph(g - init_family());
     }
     // --- local compound values: in a function a constant calls / in the initialiser
     let local = (1 + g / 2) as u8;
@@ -550,6 +725,7 @@ fn gen_graph(seed: u64, g: u64) -> (Vec<Item>, Expect) {
             alias: match p.below(6) { 0 => Some(true), 1 => Some(false), _ => None },
             local: if p.chance(1, 5) { 1 + p.below(LOCAL_NAMES.len() as u64 - 1) as u8 } else { 0 },
             acc: if p.chance(1, 2) { 0 } else { p.below(16) as u8 },
+            init: if p.chance(1, 2) { 0 } else { p.below(INIT_NAMES.len() as u64) as u8 },
             refs: vec![],
         })
         .collect();
@@ -753,14 +929,81 @@ fn read_form(t: &Item, form: u8) -> (&'static str, &'static str) {
     forms[form as usize % forms.len()]
 }
 
-fn wrap_const(ty: u8, m: usize, body: &str) -> (String, String) {
+/// the name of a constant's type as written in module `m`
+fn ty_name(ty: u8, m: usize) -> String {
     match ty {
-        0 => ("u64".into(), body.to_string()),
-        1 => ("String".into(), format!("{{ let v: u64 = {body}; v.to_string() }}")),
-        2 => ("String?".into(), format!("{{ let v: u64 = {body}; Option.Some(v.to_string()) }}")),
-        3 => (format!("R{m}"), format!("{{ let v: u64 = {body}; R{m} {{ s: v.to_string(), n: v }} }}")),
-        4 => (format!("E{m}"), format!("{{ let v: u64 = {body}; E{m}.A(v.to_string()) }}")),
-        _ => ("List[String]".into(), format!("{{ let v: u64 = {body}; [v.to_string()] }}")),
+        0 => "u64".into(),
+        1 => "String".into(),
+        2 => "String?".into(),
+        3 => format!("R{m}"),
+        4 => format!("E{m}"),
+        5 => "List[String]".into(),
+        6 => "()".into(),
+        7 => format!("N{m}"),
+        8 => format!("U{m}"),
+        9 => "()?".into(),
+        _ => "Zt".into(),
+    }
+}
+
+/// a value of the type made from the number `v` (types from `ZST` on: the one value there is)
+fn ty_value(ty: u8, m: usize, v: &str) -> String {
+    match ty {
+        0 => v.to_string(),
+        1 => format!("{v}.to_string()"),
+        2 => format!("Option.Some({v}.to_string())"),
+        3 => format!("R{m} {{ s: {v}.to_string(), n: {v} }}"),
+        4 => format!("E{m}.A({v}.to_string())"),
+        5 => format!("[{v}.to_string()]"),
+        6 => "()".into(),
+        7 => format!("N{m} {{}}"),
+        8 => format!("U{m} {{ u: () }}"),
+        9 => "Option.Some(())".into(),
+        _ => "zt()".into(),
+    }
+}
+
+/// the shape the initialiser of a constant is rendered in: `via-constant` needs a first
+/// reference that is a constant of the same type, `direct-host-call` a type that has a value
+/// made by one host call
+fn eff_init(items: &[Item], it: &Item) -> u8 {
+    match it.init {
+        4 if via_const(items, it).is_none() => 2,
+        1 if matches!(it.ty, 2..=5) => 0,
+        1 if it.ty == 7 => 2,
+        i => i,
+    }
+}
+
+/// The initialiser of a constant: `rest` are the terms of its sum other than the effect
+/// (reads of constants, calls of functions, a context read, local values), `via` the path of
+/// the constant whose value is handed on (shape `via-constant`).
+fn const_init(it: &Item, shape: u8, rest: &[String], via: Option<&str>) -> String {
+    let (n, m, ty) = (it.n, it.module, it.ty);
+    let sum = |first: String| std::iter::once(first).chain(rest.iter().cloned()).collect::<Vec<_>>().join(" + ");
+    let rest_only = if rest.is_empty() { "0".to_string() } else { rest.join(" + ") };
+    match shape {
+        0 => {
+            let body = sum(format!("emit({n})"));
+            if ty == 0 { body } else { format!("{{ let v: u64 = {body}; {} }}", ty_value(ty, m, "v")) }
+        }
+        1 => {
+            // the value is the host call itself
+            let (call, uses_v) = match ty {
+                0 => (if rest.is_empty() { format!("emit({n})") } else { format!("emit({n}) + v") }, true),
+                1 => (if rest.is_empty() { format!("emit({n}).to_string()") } else { format!("(emit({n}) + v).to_string()") }, true),
+                6 => (format!("emitu({n})"), false),
+                8 => (format!("U{m} {{ u: emitu({n}) }}"), false),
+                9 => (format!("Option.Some(emitu({n}))"), false),
+                _ => (format!("mkz({n})"), false),
+            };
+            let _ = uses_v;
+            if rest.is_empty() { call } else { format!("{{ let v: u64 = {rest_only}; {call} }}") }
+        }
+        2 => format!("{{ emitu({n}); let v: u64 = {}; {} }}", sum((n + 1).to_string()), ty_value(ty, m, "v")),
+        3 if ty == 6 && rest.is_empty() => format!("ini_K{n}()"),
+        3 => format!("{{ ini_K{n}(); let v: u64 = {}; {} }}", sum((n + 1).to_string()), ty_value(ty, m, "v")),
+        _ => format!("{{ emitu({n}); let v: u64 = {}; {} }}", sum((n + 1).to_string()), via.unwrap_or("()")),
     }
 }
 
@@ -770,14 +1013,14 @@ fn render(case: &Case) -> Files {
     let mut bodies: Vec<Vec<String>> = vec![vec![]; 4];
     let mut needs_record = [false; 4];
     let mut needs_enum = [false; 4];
+    let mut needs_empty = [false; 4];
+    let mut needs_unitrec = [false; 4];
     for &i in &case.decl {
         let it = &items[i];
         let m = it.module;
         let mut terms: Vec<String> = vec![];
         let mut prefixes: Vec<String> = vec![];
-        if it.is_const {
-            terms.push(format!("emit({})", it.n));
-        } else {
+        if !it.is_const {
             terms.push(format!("{}", 100 + it.n));
         }
         if it.uses_ctx {
@@ -869,7 +1112,16 @@ fn render(case: &Case) -> Files {
         if it.is_const {
             needs_record[m] |= it.ty == 3;
             needs_enum[m] |= it.ty == 4;
-            let (tyname, init) = wrap_const(it.ty, m, &body);
+            needs_empty[m] |= it.ty == 7;
+            needs_unitrec[m] |= it.ty == 8;
+            let tyname = ty_name(it.ty, m);
+            let shape = eff_init(items, it);
+            let via = via_const(items, it).map(|d| format!("{}.{}", ABS[items[d].module], items[d].name()));
+            let init = const_init(it, shape, &terms, via.as_deref());
+            let helper = format!("fn ini_K{}() {{ emitu({}); }}", it.n, it.n);
+            if shape == 3 && it.n % 2 == 0 {
+                bodies[m].push(helper.clone());
+            }
             let decl = format!("const {}: {} = {};", it.name(), tyname, init);
             let alias = format!("const A{}: {} = {};", it.n, tyname, it.name());
             match it.alias {
@@ -882,6 +1134,9 @@ fn render(case: &Case) -> Files {
                     bodies[m].push(alias);
                 }
                 None => bodies[m].push(decl),
+            }
+            if shape == 3 && it.n % 2 == 1 {
+                bodies[m].push(helper);
             }
         } else {
             bodies[m].push(format!("fn {}(d: u64) -> u64 {{ {}{} }}", it.name(), prefixes.iter().map(|p| format!("{p} ")).collect::<String>(), body));
@@ -938,6 +1193,12 @@ fn render(case: &Case) -> Files {
             if needs_enum[m] {
                 s.push_str(&format!("enum E{m} {{ A(String), B }}\n"));
             }
+            if needs_empty[m] {
+                s.push_str(&format!("record N{m} {{}}\n"));
+            }
+            if needs_unitrec[m] {
+                s.push_str(&format!("record U{m} {{ u: () }}\n"));
+            }
             for b in &bodies[m] {
                 s.push_str(b);
                 s.push('\n');
@@ -965,6 +1226,11 @@ fn known_structure(case: &Case) -> (BTreeMap<String, char>, BTreeSet<(String, St
             let var = format!("{}", CTX_FORMS[it.ctx_form as usize].1);
             kinds.insert(var.clone(), 'x');
             edges.insert((from.clone(), var));
+        }
+        if it.is_const && eff_init(items, it) == 3 {
+            let ini = format!("{}.ini_K{}", ABS[it.module], it.n);
+            kinds.insert(ini.clone(), 'f');
+            edges.insert((from.clone(), ini));
         }
         if it.is_const {
             let am = acc_module(it);
@@ -1007,6 +1273,10 @@ fn known_sites(case: &Case) -> BTreeMap<(String, String), usize> {
             let shape = if r.multi != EARLY { r.multi } else if it.is_const { 1 } else { EARLY };
             let sites = if shape == EARLY { 2 } else { MULTI[shape as usize].1.matches("$V").count() };
             *m.entry((full(it), full(t))).or_default() += per_site * sites;
+        }
+        if let Some(d) = via_const(items, it) {
+            // the value of the initialiser is one more read of that constant
+            *m.entry((full(it), full(&items[d]))).or_default() += 1;
         }
         if it.is_const {
             let am = acc_module(it);
@@ -1103,6 +1373,14 @@ impl Oracle<'_> {
             } else {
                 self.function(r.to, r.depth)
             });
+        }
+        if let Some(d) = via_const(self.items, it) {
+            // the initialiser hands on the value of that constant
+            v = self.constant(d);
+        }
+        if it.ty >= ZST {
+            // a value without a number: every read form is worth 0
+            v = 0;
         }
         self.cval[c] = Some(v);
         v
@@ -1227,7 +1505,7 @@ fn check_model(
             json!({"case": input, "request": req, "components": real_comps}),
         );
     } else if cert != "valid=1" {
-        rep.violation(
+        viol(rep, 
             "the verified checker validOrder rejects the implementation's components: an item is missing, duplicated, or placed before something it references",
             "order:certificate",
             json!({"case": input, "request": req, "components": real_comps}),
@@ -1405,7 +1683,7 @@ fn check_edges(rep: &mut Report, drv: &mut Driver, case: &Case, d: &Dump, input:
                 }
             })
             .unwrap_or_else(|| if from.contains(".A") { "const:alias".into() } else { "accessor".into() });
-        rep.violation(
+        viol(rep, 
             "an item mentions a constant / function / context variable, but the reference is missing from the graph the compilation order and the context check are computed from",
             &format!("edge-missing:{site}"),
             json!({"case": input, "from": from, "to": to, "request": req}),
@@ -1571,7 +1849,7 @@ fn check_lir(rep: &mut Report, drv: &mut Driver, lir: &[LirItem], log: Option<&[
                 }
             }
         }
-        rep.violation(
+        viol(rep, 
             "in the item list handed to the code generator, a constant is evaluated before something its initialiser can reach has been defined",
             &format!("lir-order:{class}"),
             json!({"case": input, "what": what, "items": lir.iter().map(|i| i.name.clone()).collect::<Vec<_>>(), "request": req}),
@@ -1603,6 +1881,7 @@ fn run_case(rep: &mut Report, drv: &mut Driver, seed: u64, index: u64) {
         if it.is_const {
             rep.hist("accessor", format!("{}{}{}", if it.acc & 1 == 1 { "filtermap" } else { "fn" }, if it.acc & 2 == 2 { " first" } else { " last" }, if it.acc & 4 == 4 { " +test" } else { "" }) + if it.acc & 8 == 8 { " (own module)" } else { "" });
             rep.hist("const-type", format!("{}{}", TY_NAMES[it.ty as usize], if it.alias.is_some() { " +alias" } else { "" }));
+            rep.hist("const-init", format!("{} ({})", INIT_NAMES[eff_init(items, it) as usize], if zero_sized(it.ty) { "zero-sized type" } else if it.ty >= ZST { "Option of a zero-sized type" } else { "sized type" }));
         }
         for r in &it.refs {
             let t = &items[r.to];
@@ -1650,7 +1929,7 @@ fn run_case(rep: &mut Report, drv: &mut Driver, seed: u64, index: u64) {
     if let (Ok(Ok(())), Expect::Context(k)) = (&checked, &case.expect) {
         // do not go on: the initialiser would be run without a context
         let form = reached_ctx_form(items);
-        rep.violation(
+        viol(rep, 
             "a constant that transitively reads a context variable passed the type checker (its initialiser would run at compile time without a context)",
             &format!("context-accepted:{k}:{form}"),
             json!({"case": input}),
@@ -1669,6 +1948,25 @@ fn run_case(rep: &mut Report, drv: &mut Driver, seed: u64, index: u64) {
     let log: Vec<u64> = LOG.lock().unwrap().clone();
     let dump = take_dump();
     let lir = take_lir();
+    // the layout the code generator gives every generated constant: the types taken to be
+    // zero-sized are, the others are not (so that the class is exercised, not assumed)
+    if let Some(layouts) = take_const_layouts() {
+        for it in items.iter().filter(|i| i.is_const) {
+            let full = format!("{}.{}", ABS[it.module], it.name());
+            match layouts.iter().find(|l| l.0 == full).and_then(|l| l.1) {
+                Some((size, _)) => {
+                    rep.hist("const-layout", format!("{}: {}", TY_NAMES[it.ty as usize], if size == 0 { "0 bytes" } else { "> 0 bytes" }));
+                    if (size == 0) != zero_sized(it.ty) {
+                        rep.mismatch(
+                            "a generated constant is laid out in another size class than the generator takes its type to have (generator)",
+                            json!({"case": input, "constant": full, "type": TY_NAMES[it.ty as usize], "size": size}),
+                        );
+                    }
+                }
+                None => rep.mismatch("no layout recorded for a generated constant", json!({"case": input, "constant": full})),
+            }
+        }
+    }
     if let Some(l) = &lir {
         let ok = matches!(compiled, Ok(Ok(_)));
         check_lir(rep, drv, l, if ok { Some(&log) } else { None }, compiled.is_err(), &input);
@@ -1689,7 +1987,7 @@ fn run_case(rep: &mut Report, drv: &mut Driver, seed: u64, index: u64) {
     let class;
     match compiled {
         Err(_) => {
-            rep.violation(
+            viol(rep, 
                 "the compiler panicked on a generated program",
                 &format!("compile-panic:{}", describe(&case.expect)),
                 json!({"case": input, "log": log}),
@@ -1710,7 +2008,7 @@ fn run_case(rep: &mut Report, drv: &mut Driver, seed: u64, index: u64) {
             };
             class = format!("rejected:{kind}");
             if !log.is_empty() {
-                rep.violation(
+                viol(rep, 
                     "a program was rejected after a constant initialiser had already run",
                     "rejected-after-evaluation",
                     json!({"case": input, "log": log, "error": kind}),
@@ -1718,7 +2016,7 @@ fn run_case(rep: &mut Report, drv: &mut Driver, seed: u64, index: u64) {
             }
             match (&case.expect, kind) {
                 (Expect::Cycle(_), "cycle") | (Expect::Context(_), "context") => {}
-                (Expect::Accept, _) => rep.violation(
+                (Expect::Accept, _) => viol(rep, 
                     "a program whose constants form a DAG and reach no context variable was rejected",
                     &format!("valid-rejected:{kind}"),
                     json!({"case": input, "error": strip_ansi(&text)}),
@@ -1737,12 +2035,12 @@ fn run_case(rep: &mut Report, drv: &mut Driver, seed: u64, index: u64) {
         Ok(Ok(mut pkg)) => {
             class = "compiled".to_string();
             match &case.expect {
-                Expect::Cycle(k) => rep.violation(
+                Expect::Cycle(k) => viol(rep, 
                     "a constant that depends on itself was accepted",
                     &format!("cycle-accepted:{k}"),
                     json!({"case": input, "log": log}),
                 ),
-                Expect::Context(k) => rep.violation(
+                Expect::Context(k) => viol(rep, 
                     "a constant that transitively reads a context variable was accepted",
                     &format!("context-accepted:{k}"),
                     json!({"case": input, "log": log}),
@@ -1754,16 +2052,22 @@ fn run_case(rep: &mut Report, drv: &mut Driver, seed: u64, index: u64) {
                         *count.entry(*id).or_default() += 1;
                     }
                     for it in items.iter().filter(|i| i.is_const) {
+                        // which constant: its layout class, and where the effect sits in the initialiser
+                        let which = format!(
+                            "{}:{}",
+                            if zero_sized(it.ty) { format!("zero-sized:{}", TY_NAMES[it.ty as usize]) } else { format!("sized:{}", TY_NAMES[it.ty as usize]) },
+                            INIT_NAMES[eff_init(items, it) as usize]
+                        );
                         match count.get(&(it.n as u64)).copied().unwrap_or(0) {
                             1 => {}
-                            0 => rep.violation(
+                            0 => viol(rep,
                                 "a constant's initialiser did not run during compile",
-                                "not-evaluated",
+                                &format!("not-evaluated:{which}"),
                                 json!({"case": input, "constant": it.name(), "log": log}),
                             ),
-                            _ => rep.violation(
+                            _ => viol(rep,
                                 "a constant's initialiser ran more than once during compile",
-                                "evaluated-twice",
+                                &format!("evaluated-twice:{which}"),
                                 json!({"case": input, "constant": it.name(), "log": log}),
                             ),
                         }
@@ -1775,9 +2079,13 @@ fn run_case(rep: &mut Report, drv: &mut Driver, seed: u64, index: u64) {
                         for dd in (0..n).filter(|&i| items[i].is_const && r[c][i]) {
                             if let (Some(pc), Some(pd)) = (at(c), at(dd)) {
                                 if pd >= pc {
-                                    rep.violation(
+                                    viol(rep, 
                                         "a constant was evaluated before a constant it depends on",
-                                        "order",
+                                        &format!(
+                                            "order:{}-after-{}",
+                                            if zero_sized(items[dd].ty) { "zero-sized-dependency" } else { "sized-dependency" },
+                                            if zero_sized(items[c].ty) { "zero-sized" } else { "sized" }
+                                        ),
                                         json!({"case": input, "constant": items[c].name(), "dependency": items[dd].name(), "log": log}),
                                     );
                                 }
@@ -1810,7 +2118,7 @@ fn run_case(rep: &mut Report, drv: &mut Driver, seed: u64, index: u64) {
                                     match got {
                                         Ok(got) => {
                                             if got != want {
-                                                rep.violation(
+                                                viol(rep, 
                                                     "a constant read after compile does not have the value its initialiser computes from its dependencies",
                                                     "value:constant",
                                                     json!({"case": input, "constant": name, "got": got, "want": want}),
@@ -1829,7 +2137,7 @@ fn run_case(rep: &mut Report, drv: &mut Driver, seed: u64, index: u64) {
                                         Ok(f) => {
                                             let got = f.call(&mut ctx, d);
                                             if got != want {
-                                                rep.violation(
+                                                viol(rep, 
                                                     "a function called after compile does not observe the values the constants were given",
                                                     "value:function",
                                                     json!({"case": input, "function": it.name(), "d": d, "got": got, "want": want}),
@@ -1850,7 +2158,7 @@ fn run_case(rep: &mut Report, drv: &mut Driver, seed: u64, index: u64) {
                     }
                     for t in &tests {
                         if t.run(&mut ctx).is_err() {
-                            rep.violation(
+                            viol(rep, 
                                 "a test item reading a constant after compile does not see the value its initialiser computes from its dependencies",
                                 "value:test",
                                 json!({"case": input, "test": t.name()}),
@@ -1860,7 +2168,7 @@ fn run_case(rep: &mut Report, drv: &mut Driver, seed: u64, index: u64) {
                     drop(tests);
                     let after: Vec<u64> = LOG.lock().unwrap().clone();
                     if after != log {
-                        rep.violation(
+                        viol(rep, 
                             "calling functions after compile ran a constant initialiser again",
                             "evaluated-at-call-time",
                             json!({"case": input, "log_after_compile": log, "log_after_calls": after}),
@@ -1894,8 +2202,14 @@ fn run_case(rep: &mut Report, drv: &mut Driver, seed: u64, index: u64) {
         .find(|(_, r)| items[r.to].is_const && r.multi != 0)
         .map(|(i, r)| format!("{}:{}", MULTI[r.multi as usize].0, if i.is_const { "c" } else { "f" }))
         .unwrap_or("-".into());
+    let init = items
+        .iter()
+        .filter(|i| i.is_const)
+        .find(|i| eff_init(items, i) != 0 || i.ty >= ZST)
+        .map(|i| format!("{}:{}", INIT_NAMES[eff_init(items, i) as usize], TY_NAMES[i.ty as usize]))
+        .unwrap_or("-".into());
     rep.class(format!(
-        "{}|{}|c{}f{}e{}|fcycle={}|mods={}|v{}|compound={}|ctx={}|entry={entry}|sites={sites}",
+        "{}|{}|c{}f{}e{}|fcycle={}|mods={}|v{}|compound={}|ctx={}|entry={entry}|sites={sites}|init={init}",
         describe(&case.expect),
         class,
         nconst,
@@ -1928,6 +2242,10 @@ fn warm_up() {
     for n in 0..12 {
         s.push_str(&format!("fn rd_K{n}(d: u64) -> u64 {{ K{n} }}\nfn rd_A{n}(d: u64) -> u64 {{ A{n} }}\ntest t_K{n} {{ accept }}\ntest t_A{n} {{ accept }}\n"));
     }
+    // (names added later come after everything above: the order of the older names is unchanged)
+    for n in 0..12 {
+        s.push_str(&format!("fn ini_K{n}() {{ }}\n"));
+    }
     let rt = runtime();
     let _ = catch_unwind(AssertUnwindSafe(|| typecheck_only(tree(&[(0, s)]), &rt)));
     let _ = take_dump();
@@ -1938,7 +2256,7 @@ fn on_crash(seed: u64, base: u64) -> impl FnMut(&mut Report, u64, &rotov_harness
         let idx = base + idx;
         let case = gen_case(seed, idx);
         let files = render(&case);
-        rep.violation(
+        viol(rep, 
             "the process died (abort/trap/timeout) while compiling or calling a generated program",
             &format!("compile-crash:{}", describe(&case.expect)),
             json!({"seed": seed, "index": idx, "ended": format!("{how:?}"), "files": files_json(&files)}),
@@ -1987,6 +2305,9 @@ fn replay_files(rep: &mut Report, drv: &mut Driver, v: &Value) {
     }
     if let Some(l) = take_lir() {
         println!("lir items: {:?}", l.iter().map(|i| i.name.clone()).collect::<Vec<_>>());
+        for i in l.iter().filter(|i| !i.consts.is_empty()) {
+            println!("  {} reads {:?} x {:?}", i.name, i.consts, i.const_reads);
+        }
         check_lir(rep, drv, &l, if matches!(res, Ok(Ok(()))) { Some(&log) } else { None }, res.is_err(), v);
     }
     rep.evaluations += 1;
